@@ -1,4 +1,5 @@
 import ZChain.Model.Replicators
+import ZChain.Model.MagicBlocks
 /-
 Several node pools over SHARED node objects — `chaincore/node/node_pool.go` `Pool.AddNode` + `computeNodePositions`
 as they act on `*Node` objects that may sit in more than one pool, and `HashPoolScorer.ScoreHash` reading
@@ -101,5 +102,33 @@ def canShardW (nrepl : Int) (w : World) (p : Nat) (hash : Option (List Nat)) (ke
   else match scoreHashStringW w p hash with
     | none => none
     | some sc => isInTopWithNodes sc nrepl key
+
+/-! ### the chain's three entry points: ONE magic-block lookup for all of them
+
+`Chain.IsBlockSharder(b, sharder)`, `Chain.IsBlockSharderFromHash(round, hash, sharder)` and
+`Chain.CanShardBlockWithReplicators(round, hash, sharder)` all take the sharders of `c.GetMagicBlock(round)` — the
+lookup WITH the view-change offset (`Model/MagicBlocks.getMagicBlock`: a magic block is in force from 4 rounds after its
+starting round). The stored entity of a magic block is the id of its sharder pool. -/
+
+/-- the sharder pool in force for a round (`none`: `GetMagicBlock` panics, empty storage). -/
+def mbOf (mbs : ZChain.MagicBlocks.Store) (round : Int) : Option Nat := ZChain.MagicBlocks.getMagicBlock mbs round
+
+def chainIsBlockSharderFromHash (nrepl : Int) (w : World) (mbs : ZChain.MagicBlocks.Store) (round : Int)
+    (hash : Option (List Nat)) (key : Nat) : Option Bool :=
+  if nrepl ≤ 0 then some true
+  else match mbOf mbs round with
+    | none => none
+    | some p => isBlockSharderW nrepl w p hash key
+
+/-- `IsBlockSharder(b, sharder)` with `b.Round = round`, `b.Hash = hash`. -/
+def chainIsBlockSharder (nrepl : Int) (w : World) (mbs : ZChain.MagicBlocks.Store) (round : Int)
+    (hash : Option (List Nat)) (key : Nat) : Option Bool :=
+  chainIsBlockSharderFromHash nrepl w mbs round hash key
+
+def chainCanShard (nrepl : Int) (w : World) (mbs : ZChain.MagicBlocks.Store) (round : Int)
+    (hash : Option (List Nat)) (key : Nat) : Option (Bool × List Node) :=
+  match mbOf mbs round with
+  | none => none
+  | some p => canShardW nrepl w p hash key
 
 end ZChain.NodePools
